@@ -54,7 +54,11 @@ impl Computer {
                             }
                             .map(|mut expression| {
                                 self.process_expression(&mut expression);
-                                expression
+                                if self.evaluator.can_return_multiple_values(&expression) {
+                                    expression.in_parentheses()
+                                } else {
+                                    expression
+                                }
                             })
                         })
                 } else {
